@@ -63,3 +63,27 @@ def run_case(prog: Program, fi: FuncInfo, setup: Callable, *, inline_ctor=False,
         out.ctx = ctx
         return out
     return explore(run)
+
+
+def run_body(prog: Program, body: Callable, *, inline_ctor=False, inline_rate_ctor=False,
+             max_depth=10) -> List[Outcome]:
+    """Like run_case, but `body(interp, ctx)` drives several calls on one path state."""
+    def run(oracle):
+        st = State(oracle)
+        models = FullModels(inline_ctor=inline_ctor, inline_rate_ctor=inline_rate_ctor)
+        interp = Interp(prog, st, models, max_depth=max_depth)
+        ctx = Ctx(st, models)
+        from .interp import Frame
+        interp.frames.append(Frame(None, prog.modules["quantity"], None, {}))
+        try:
+            v = body(interp, ctx)
+            out = Outcome("return", value=v, state=st)
+        except AbsRaise as ar:
+            out = Outcome("raise", exc=ar.exc, state=st)
+        finally:
+            interp.frames.pop()
+        out.args = []
+        out.kwargs = {}
+        out.ctx = ctx
+        return out
+    return explore(run)
